@@ -247,7 +247,21 @@ func GenCommands(r *rand.Rand, sp DBSpec) []Cmd {
 		if sp.TieHeavy {
 			for k := r.Intn(4); k > 0 && len(out) < sp.N; k-- {
 				d := cloneCmd(c)
-				switch r.Intn(7) {
+				switch r.Intn(8) {
+				case 7: // same text, declared for other platforms (a notebook copy of a shipped entry, re-tagged): one of the two is
+					// eligible under a platform restriction, the other is not, in either order
+					if sp.Platforms > 0 {
+						switch r.Intn(3) {
+						case 0:
+							d.Platform = []string{pick(r, AlienPlatforms)}
+						case 1:
+							d.Platform = nil
+						default:
+							d.Platform = []string{pick(r, []string{"linux", "windows", "macos"})}
+						}
+					} else {
+						d.Pipeline = !d.Pipeline
+					}
 				case 4: // differs only in its tags
 					d.Tags = []string{Word(r, local)}
 					if r.Intn(2) == 0 {
